@@ -1,4 +1,5 @@
 """C14 -- allocation history (DESIGN 5/C14). Configuration `def` (block cache and header pool on)."""
+REPLAYABLE = False  # stubs / instrumented program: counterexamples are reported from the solver trace, not re-linked against gcc
 BOUNDS = {
  "quick": "header pool: one mzd_t_malloc / one mzd_t_free step from EVERY valid pool state with 1..3 blocks (all 2^64 `used` masks per block symbolic, current_cache any member; block limit scaled to 3 by the hook so the fallback path is reachable); block cache: one m4ri_mmc_malloc / m4ri_mmc_free step from every cache state over 3 slots and sizes {0,64,128,192}(+256), then cleanup + leak check; scripted histories (<= 9 ops over init of equal/different/zero-area sizes, window, free in any scripted order; 2 cache slots) with symbolic canaries and nondeterministic recycled memory, leak check after m4ri_mmc_cleanup",
  "thorough": "more scripts (all permutations of free order for 3 matrices, eviction rotation), 4-slot cache",
